@@ -12,6 +12,9 @@ Lemma from_arrays_copies : eff from_arrays_mode = Copy.
 Proof. reflexivity. Qed.
 Lemma copy_is_deep : forall attr : bool, (if attr then copy_mode_with_attributes else copy_mode_data_only) = Copy.
 Proof. intros []; reflexivity. Qed.
+(* every container of the copy is filled from the same container of the source, in both branches of mesh.copy *)
+Lemma copy_plumbing_is_identity (attr : bool) (so : obj) cs : copy_obj attr so cs = with_cells so cs.
+Proof. destruct attr, so as [? ? ? ? [? ? ? ? ? ?] ?]; reflexivity. Qed.
 Lemma copy_connectivity_is_deep : copy_connectivity_mode = Copy.
 Proof. reflexivity. Qed.
 Lemma translate_by_value : translate_param_by_value = true.
